@@ -254,6 +254,38 @@ class World:
                 t = self.pool[tn]
                 res = t.transferred_to(self.engines[en])
                 return self.report(n, "same" if res is t else "new", res)
+            case ["unwrap", n, tn]:
+                t = self.pool[tn]
+                if not isinstance(t, Select):
+                    raise AttributeError("not a Select")
+                return self.report(n, "new", t.skip_to)
+            case ["rawu", n, opx, tn]:
+                t = self.pool[tn]
+                op = self.uop(opx)
+                return self.report(
+                    n, "new", UnaryOperationRelation(operation=op, target=t, columns=op.applied_columns(t))
+                )
+            case ["rawchain", n, ln, rn]:
+                from lsst.daf.relation import BinaryOperationRelation, Chain
+
+                lhs, rhs = self.pool[ln], self.pool[rn]
+                op = Chain()
+                return self.report(
+                    n, "new", BinaryOperationRelation(operation=op, lhs=lhs, rhs=rhs, columns=op.applied_columns(lhs, rhs))
+                )
+            case ["rawjoin", n, ln, rn, px]:
+                from lsst.daf.relation import BinaryOperationRelation, Join
+
+                lhs, rhs = self.pool[ln], self.pool[rn]
+                common = frozenset(t for t in lhs.columns & rhs.columns if t.is_key)
+                op = Join(self.pred(px), min_columns=common, max_columns=common)
+                return self.report(
+                    n, "new", BinaryOperationRelation(operation=op, lhs=lhs, rhs=rhs, columns=op.applied_columns(lhs, rhs))
+                )
+            case ["conform", n, tn]:
+                t = self.pool[tn]
+                res = t.engine.conform(t)
+                return self.report(n, "same" if res is t else "new", res)
             case ["exec", n]:
                 r = self.pool[n]
                 if not isinstance(r.engine, iteration.Engine):
@@ -349,6 +381,8 @@ class World:
 
                 restricted = {k: v for k, v in row.items() if k in p.columns_required}
                 sqle = sql.Engine(name="tmpsql")
+                sqle.functions.update(eng.functions)
+                sqlv = self.sqlw.eval_on_row(sqle, row, predicate=p)
                 if flat is False:
                     flatval = "-"
                 else:
@@ -364,7 +398,8 @@ class World:
                     f"ok triv={'-' if triv is None else show_bool(triv)} flat={flat_s} norm={norm} "
                     f"flatval={flatval} normval={normval} "
                     f"cols={show_cols(p.columns_required)} iter={ev(row)} restricted={ev(restricted)} "
-                    f"spec=? sup_iter={show_bool(p.is_supported_by(eng))} sup_sql={show_bool(p.is_supported_by(sqle))}"
+                    f"spec=? sup_iter={show_bool(p.is_supported_by(eng))} sup_sql={show_bool(p.is_supported_by(sqle))} "
+                    f"sql={sqlv}"
                 )
             case ["expr", ex, *binds]:
                 e = self.expr(ex)
@@ -379,7 +414,13 @@ class World:
                         return "err"
 
                 restricted = {k: v for k, v in row.items() if k in e.columns_required}
-                return f"ok cols={show_cols(e.columns_required)} iter={ev(row)} restricted={ev(restricted)} spec=?"
+                sqle = sql.Engine(name="tmpsql")
+                sqle.functions.update(eng.functions)
+                sqlv = self.sqlw.eval_on_row(sqle, row, expression=e)
+                return (
+                    f"ok cols={show_cols(e.columns_required)} iter={ev(row)} restricted={ev(restricted)} spec=? "
+                    f"sql={sqlv}"
+                )
             case ["diag", n, mode]:
                 r = self.pool[n]
                 ex = None
